@@ -300,5 +300,21 @@ pub(crate) fn table() -> Vec<F> {
                         let mut adds: Vec<usize> = a.list().into_iter().map(|v| v as usize).collect(); h.mark(i, &mut adds);
                         let o = match &h.outs { None => "none".to_string(), Some(o) => format!("some({})", outs_enc(o)) };
                         format!("ok ({{{} {}}},{})", o, h.h, enc_list(&adds.iter().map(|v| *v as u64).collect::<Vec<_>>())) } },
+        // round 9 (b1819): atomics (wrap at both widths), byte-string / literal-bound &str, let-bound try_into
+        F { key: "Fixture.Ctr.next", prop: "FIX",
+            gen: |r| format!("{} {} {}", edge32(r), if r.chance(1, 3) { u64::MAX - r.below(2) } else { r.below(9) }, if r.chance(1, 2) { edge32(r) } else { r.below(3) }),
+            call: |a| { use std::sync::atomic::{AtomicU32, AtomicUsize, Ordering};
+                        let c = Ctr { n: AtomicU32::new(a.u() as u32), k: AtomicUsize::new(a.u() as usize) }; let d = a.u() as u32;
+                        let old = c.next(d);
+                        format!("ok ({{{} {}}},{})", c.n.load(Ordering::SeqCst), c.k.load(Ordering::SeqCst), old) } },
+        F { key: "Fixture.Ctr.shuffle", prop: "FIX",
+            gen: |r| format!("{} {} {}", edge32(r), r.below(9), if r.chance(1, 3) { edge64(r) } else { r.below(20) }),
+            call: |a| { use std::sync::atomic::{AtomicU32, AtomicUsize, Ordering};
+                        let c = Ctr { n: AtomicU32::new(a.u() as u32), k: AtomicUsize::new(a.u() as usize) }; let v = a.u() as usize;
+                        let (x, y) = c.shuffle(v);
+                        format!("ok ({{{} {}}},({},{}))", c.n.load(Ordering::SeqCst), c.k.load(Ordering::SeqCst), x, y) } },
+        F { key: "Fixture.tagged", prop: "FIX",
+            gen: |r| { let n = r.below(8); let b = gen_bytes(r, n); format!("{} {}", arg_list(&b), if r.chance(1, 5) { u64::MAX - 1 } else { r.below(6) }) },
+            call: |a| { let b = bytes_from(a); let i = a.u() as usize; let (o, c) = tagged(&b, i); format!("ok ({},{})", l8(&o), l8(&c)) } },
     ]
 }
